@@ -7,6 +7,10 @@ from harness.impl_loc import impl_loc_op, enc_loc
 ID = "C01"
 LEAN_MODULE = "BioCantor.Props.C01"
 DESIGN_REF = "4/C01"
+DRIVER = "drivers/C01.lean"
+SPEC_DRIVER = "drivers/SpecC01.lean"
+DRIVER_MODULES = ["BioCantor.Driver.Main", "BioCantor.Driver.Loc"]
+SPEC_DRIVER_MODULES = ["BioCantor.Driver.Main", "BioCantor.Driver.SpecLoc"]
 RULE = ("exhaustive small layouts (see exhaustive_scope) x every position / sub-interval, then random layouts "
         "with up to 8 blocks; a case is non-trivial when the location has >= 2 blocks and the real library "
         "answered ok; distinct = distinct operation lines")
